@@ -4,12 +4,16 @@ from ..common import run_go, run_lean, dec_val, canon, enc_val
 
 FACTS = True
 MODULE = "Genql.Properties.C20"
-LEAN_TARGETS = [MODULE, "Genql.Obligations.C20"]
+LEAN_TARGETS = [MODULE, "Genql.Properties.C20Query", "Genql.Obligations.C20"]
 THEOREMS = ["Genql.C20." + t for t in [
-    "step_refines", "vars_refine_registers", "setvar_no_column", "never_set_is_null", "final_store", "cross_query"]] + \
+    "step_refines", "vars_refine_registers", "setvar_no_column", "never_set_is_null", "final_store", "cross_query",
+    "run_append", "selVars_refines", "query_vars_refine", "history_row_major", "selVars_other_untouched"]] + \
     ["Genql.Obligations.C20.vars_function_lines"]
-TRUSTED = ["the evaluation order (rows in source order, select-list items left to right) is supplied by the harness as the "
-           "history; that SelectExpr/ExecSelect really evaluate in this order is what the correspondence checks"]
+TRUSTED = ["the evaluation order (rows in source order, select-list items left to right) is what Model/VarsQuery.rowsVars does and what "
+           "query_vars_refine relates to the register machine; that SelectExpr/ExecSelect really evaluate in this order is what the "
+           "correspondence checks (rows and final map of the implementation against the query-level model run by the driver; the "
+           "harness-made history is kept as a second, independent oracle)",
+           "SETVAR / GETVAR nested inside other expressions, in WHERE or under ASYNC are outside the query-level model (top-level select items only)"]
 RULE = ("histories over 1-4 keys spread across 1-6 select-list positions and 0-10 rows, and sequences of 1-4 queries sharing one "
         "variable map, each query flat or as a CTE body / derived table / UNION ALL branch / under LIMIT-OFFSET; rows (GETVAR columns, no SETVAR column) and the caller's final map are compared with the Lean store model "
         "run on the row-major, left-to-right history; non-trivial = a key read after >=2 writes, or across rows/queries")
@@ -69,7 +73,7 @@ def gen_query(rnd, qi):
         sql = sql + " UNION ALL " + sql
         ops = ops + ops
         passes = 2
-    return {"doc": {"t": rows}, "sql": sql, "items": items, "ops": ops, "form": form, "window": window, "passes": passes}
+    return {"doc": {"t": rows}, "sql": sql, "items": items, "ops": ops, "form": form, "window": window, "passes": passes, "sel": sel}
 
 
 def explore(chk, rnd, tier):
@@ -87,7 +91,10 @@ def explore(chk, rnd, tier):
             break
         gos = run_go([{"op": "query", "doc": enc_val(s["qs"][rnd_i]["doc"]), "sql": s["qs"][rnd_i]["sql"], "vars": s["cur"]} for s in live])
         leans = run_lean([{"op": "vars", "store": s["lean"], "ops": s["qs"][rnd_i]["ops"]} for s in live])
-        for s, g, l in zip(live, gos, leans):
+        # the query-level model (Model/VarsQuery): derives the history itself from the select list and the rows
+        lqs = run_lean([{"op": "varsquery", "doc": enc_val(s["qs"][rnd_i]["doc"]), "store": s["lean"], "sel": s["qs"][rnd_i]["sel"],
+                         "passes": s["qs"][rnd_i]["passes"]} for s in live])
+        for s, g, l, lq in zip(live, gos, leans, lqs):
             qc = s["qs"][rnd_i]
             total += 1
             chk.count("query:" + str(g.get("r")))
@@ -121,6 +128,21 @@ def explore(chk, rnd, tier):
                                 bad = "row %d %s: impl %r model %r" % (ri, it[2], row.get(it[2]), want)
             if canon(dec_val(g.get("vars"))) != canon(dec_val(l["store"])):
                 bad = "final variable map differs: impl %s model %s" % (g.get("vars"), l["store"])
+            # … and against the query-level model: whole rows (every column) after the window, and the final map
+            if lq.get("r") == "ok":
+                chk.count("query-level-model:ok")
+                mrows = dec_val(lq["v"])
+                if qc["window"] is not None:
+                    off, lim = qc["window"]
+                    mrows = mrows[off:off + lim]
+                if not bad and canon(mrows) != canon(rows):
+                    bad = "rows differ from the query-level model: impl %r model %r" % (rows, mrows)
+                if not bad and canon(dec_val(lq["store"])) != canon(dec_val(g.get("vars"))):
+                    bad = "final variable map differs from the query-level model: impl %s model %s" % (g.get("vars"), lq["store"])
+            else:
+                chk.count("query-level-model:" + str(lq.get("r")))
+                if lq.get("r") != "oom":
+                    bad = "query-level model says %s, impl ok" % lq.get("r")
             if bad:
                 chk.add_violation("vars-model-vs-impl", {"sql": qc["sql"], "doc": qc["doc"], "vars_before": s["cur"],
                                                         "query_index_in_sequence": rnd_i, "detail": bad, "impl": g, "model": l})
@@ -136,7 +158,10 @@ def explore(chk, rnd, tier):
 
 LEVEL_TEXT = ("Lean theorems: the association-list store of GetVarFunc/SetVarFunc refines a register machine Key -> Option Val for every "
               "history (GETVAR returns the most recent SETVAR value in evaluation order, NULL if never set; SETVAR produces no column; "
-              "the final map holds the last write per key; two queries sharing the map behave as the concatenated history). Tied to "
+              "the final map holds the last write per key; two queries sharing the map behave as the concatenated history). Query level "
+              "(Model/VarsQuery, C20Query): the select list evaluated for every row in source order, item by item from left to right with "
+              "the map threaded through, leaves the map in the state the register machine reaches on the row-major left-to-right history "
+              "and its GETVAR columns hold the machine's outputs in that order (selVars_refines, query_vars_refine). Tied to "
               "/repo by running generated query sequences and comparing rows and the caller's map with the model's run.")
 LEVEL_NOTE = "The mutex around the map is C13's obligation (vars_well_locked); here evaluation is sequential."
 TECHNIQUE = "Lean 4 proof (refinement to a register machine by induction over the history) + differential correspondence on query sequences"
